@@ -1,8 +1,11 @@
 """C04 — deterministic targets: result is the best evaluated point, reported truthfully."""
-from harness import runlevel as R, skel as S
+from harness import comp_loop as L, runlevel as R, skel as S
 
-PROPS = "Props/C04.v"
-THEOREMS = ["C04_result_is_best_evaluated", "C04_history_monotone", "C04_history_rows_evaluated", "C04_never_worse_than_start", "C04_nondefault_refuted"]
+PROPS = ["Props/C04.v", "Props/C13loop.v"]
+TRANSLATORS = ["loop"]
+THEOREMS = ["C04_result_is_best_evaluated", "C04_history_monotone", "C04_history_rows_evaluated", "C04_never_worse_than_start", "C04_nondefault_refuted",
+            # Props/C13loop.v: when the incumbent moves (search and poll) equals gen/Src_loop.v, regenerated from _search_step_ / _poll_step_
+            "C04_improvement_rule_is_source"]
 LEVEL = "proof"
 RULE = ("deterministic real runs (smooth, non-smooth, plateau with ties, optimum on/outside the boundary; transforms; constraints) compared with the "
         "skeleton model incl. the incumbent after every loop iteration, AND the oracle side conditions det_ok evaluated in Coq on every event; "
@@ -43,6 +46,8 @@ def tie(ctx, broken):
     out = R.tie_skeleton(ctx, broken, [(s, None) for s in specs_for(ctx)], "c04")
     R.count_runs(ctx, out, lambda tr, P: sum(1 for e in tr["events"] if e[0] == "update_incumbent") >= 2)
     R.apply_monitor(ctx, out, R.mon_c04)
+    L.tie_loop(ctx, broken, out, "c04")                 # gen/Src_loop.v on every recorded iteration (translator validation)
+    R.apply_monitor(ctx, out, L.mon_loop)
     # result fields vs the model's final incumbent (the model's final cur is compared in the tie; here result.* vs last probe)
     badres = [tr["spec"] for tr, P in out if "result" in tr and P is not None and P["expect"]
               and not (tr["result"]["fval"] == P["expect"][-1]["f"] and tr["final"]["inv_u"] == tr["result"]["x"])]
@@ -51,6 +56,8 @@ def tie(ctx, broken):
 
 
 def search(ctx, broken):
+    if L.search_loop(ctx, broken, [R.mon_c04, R.mon_c13]):
+        return True
     if R.truncate_search(ctx, R.mon_c04):
         return True
     specs = [s for s in S.panel("thorough", ctx.seed + 23) if s["noise"] == "det"][:40]
@@ -59,4 +66,4 @@ def search(ctx, broken):
 
 
 def replay(ctx, rp):
-    return R.generic_replay(ctx, rp, [R.mon_c04])
+    return R.generic_replay(ctx, rp, [R.mon_c04, L.mon_loop])
